@@ -313,7 +313,41 @@ def via_collection(s, idx):
     judge_twice(s, docs)
 
 
+def judge_shared_readers(s, docs):
+    """Two collections built from the SAME reader objects: merging one must not change the other
+    (a reader restores a fresh object every time), and both end up with the same text."""
+    import mosromgr.moscollection as mcmod
+    from .. import events as EV
+    EV.STATE['quiet'] = EV.STATE.get('quiet', 0) + 1
+    try:
+        try:
+            readers = sorted(mcmod.MosReader.from_string(d) for d in docs)
+            mc1 = mcmod.MosCollection(list(readers), allow_incomplete=True)
+            mc2 = mcmod.MosCollection(list(readers), allow_incomplete=True)
+        except Exception:
+            return
+    finally:
+        EV.STATE['quiet'] -= 1
+    before2 = str(mc2)
+    e1, _ = K.merge_collection(s, mc1, False)
+    EV.drain()
+    untouched = str(mc2) == before2 and mc1.ro is not mc2.ro
+    e2, _ = K.merge_collection(s, mc2, False)
+    EV.drain()
+    same = str(mc1) == str(mc2) and type(e1) is type(e2)
+    s.evaluations += 1
+    s.note_sig(('shared-readers', untouched, same))
+    s.hist['shared_reader_cases'] += 1
+    if not untouched or not same:
+        s.custom_violation('collections-built-from-the-same-readers-share-state',
+                           {'second_untouched_by_first_merge': untouched, 'same_result': same,
+                            'excs': [type(e1).__name__ if e1 else None, type(e2).__name__ if e2 else None]},
+                           {'type': 'collection', 'docs': docs, 'strict': False, 'shared_readers': True}, status='readers')
+
+
 def judge_twice(s, docs):
+    if len(docs) % 2:
+        judge_shared_readers(s, docs)
     a, _, ea, _ = K.collection_merge(s, docs, False)
     b, _, eb, _ = K.collection_merge(s, docs, False)
     if a is not None and b is not None:
@@ -347,6 +381,8 @@ def replay(s, data):
         judge_reuse(s, w['ro_txt'], w['msg_txt'], w['kind'], 0)
         return
     if w.get('type') == 'collection':
+        if w.get('shared_readers'):
+            return judge_shared_readers(s, w['docs'])
         return judge_twice(s, w['docs'])
     if w.get('type') != 'c13':
         return K.replay_transition(s, data)
